@@ -253,7 +253,7 @@ def main(tier, seed):
     rng = random.Random(seed)
     base = []
     i = -1
-    n_templates = 7 if quick else 24
+    n_templates = 5 if quick else 24
     while len(base) < n_templates:
         i += 1
         s = seed * 7927 + i
